@@ -470,7 +470,95 @@ def rule_h(ctx: Ctx) -> None:
     ctx.min_instances("two_node_edits", n, 4)
 
 
-RULES = [rule_ab, rule_c, rule_d, rule_e, rule_f, rule_g, rule_h]
+def rule_i(ctx: Ctx) -> None:
+    ctx.rule("C20.i", "the private-copy decision of diff() sees both inputs whole: the condition of `<input>.copy() if <cond> else <input>` depends, for the source and for the target, "
+                      "on the length of the node sequence and on the id set of that input (a node object residing twice inside one tree), and on both id sets in one "
+                      "operation (a node shared by the two trees) — unless the inputs are copied unconditionally")
+    f = ctx.repo.func(MOD, "diff")
+    binds: dict[str, list[ast.AST]] = {}
+    for st in walk_no_nested(f.node):
+        if isinstance(st, ast.Assign) and len(st.targets) == 1 and isinstance(st.targets[0], ast.Name):
+            binds.setdefault(st.targets[0].id, []).append(st.value)
+    params = [a.arg for a in f.node.args.args[:2]]
+    ctx.require(len(params) == 2, "anchor vanished: diff(source, target, ...)")
+
+    def traverses(e: ast.AST, p: str) -> bool:
+        if isinstance(e, ast.Call) and call_name(e) in ("tuple", "list") and len(e.args) == 1:
+            return traverses(e.args[0], p)
+        return isinstance(e, ast.Call) and isinstance(e.func, ast.Attribute) and isinstance(e.func.value, ast.Name) and e.func.value.id == p and not e.args
+
+    seqs = {p: {n for n, vs in binds.items() if len(vs) == 1 and traverses(vs[0], p)} for p in params}
+
+    def is_idset(e: ast.AST, p: str) -> bool:
+        if isinstance(e, ast.Call) and call_name(e) in ("set", "frozenset") and len(e.args) == 1:
+            e = e.args[0]
+        if not isinstance(e, (ast.SetComp, ast.GeneratorExp, ast.ListComp)) or len(e.generators) != 1:
+            return False
+        it = e.generators[0].iter
+        over = (isinstance(it, ast.Name) and it.id in seqs[p]) or traverses(it, p)
+        return over and isinstance(e.elt, ast.Call) and call_name(e.elt) == "id"
+
+    idsets = {p: {n for n, vs in binds.items() if len(vs) == 1 and is_idset(vs[0], p)} for p in params}
+
+    conds = []
+    for p in params:
+        for st in walk_no_nested(f.node):
+            if isinstance(st, ast.IfExp) and isinstance(st.orelse, ast.Name) and st.orelse.id == p and isinstance(st.body, ast.Call) \
+                    and isinstance(st.body.func, ast.Attribute) and st.body.func.attr == "copy" and isinstance(st.body.func.value, ast.Name) and st.body.func.value.id == p:
+                conds.append((p, st))
+    uncond = [p for p in params if any(isinstance(c, ast.Call) and isinstance(c.func, ast.Attribute) and c.func.attr == "copy" and isinstance(c.func.value, ast.Name)
+                                       and c.func.value.id == p and not isinstance(getattr(c, "_sa_parent", None), ast.IfExp) for c in walk_no_nested(f.node))
+              and p not in [q for q, _ in conds]]
+    ctx.require(len(conds) + len(uncond) >= 2, "anchor vanished: diff() no longer takes `<input>.copy() if <cond> else <input>` for both inputs")
+    ctx.count("copy_decisions", len(conds))
+
+    def expand(e: ast.AST, depth: int = 0) -> list[ast.AST]:
+        out = [e]
+        if depth < 4:
+            for x in ast.walk(e):
+                if isinstance(x, ast.Name) and x.id not in seqs[params[0]] | seqs[params[1]] | idsets[params[0]] | idsets[params[1]] and len(binds.get(x.id, [])) == 1:
+                    out += expand(binds[x.id][0], depth + 1)
+        return out
+
+    for p, ife in conds:
+        inst = f"{f.key}|{p}.copy() if {norm(ife.test, 40)}"
+        if isinstance(ife.test, ast.Constant) and ife.test.value is True:
+            ctx.ok(inst, {"unconditional": True})
+            continue
+        exprs = expand(ife.test)
+        lens = {c.args[0].id for e in exprs for c in ast.walk(e) if isinstance(c, ast.Call) and call_name(c) == "len" and len(c.args) == 1 and isinstance(c.args[0], ast.Name)}
+        names = {x.id for e in exprs for x in ast.walk(e) if isinstance(x, ast.Name)}
+        if not any(idsets[q] for q in params) or not any(seqs[q] for q in params):
+            ctx.ok(inst, {"decided": False, "note": "node sequences / id sets of the inputs not recognised"})
+            continue
+        missing = []
+        for q in params:
+            if not (lens & seqs[q]):
+                missing.append(f"len(<node sequence of {q}>)")
+            if not (names & idsets[q]):
+                missing.append(f"<id set of {q}>")
+        both = False
+        for e in exprs:
+            for x in ast.walk(e):
+                if isinstance(x, (ast.BinOp, ast.Compare, ast.Call)):
+                    direct = {y.id for y in ast.iter_child_nodes(x) if isinstance(y, ast.Name)}
+                    if isinstance(x, ast.Call) and isinstance(x.func, ast.Attribute) and isinstance(x.func.value, ast.Name):
+                        direct.add(x.func.value.id)
+                    if isinstance(x, ast.Compare):
+                        direct |= {y.id for y in x.comparators if isinstance(y, ast.Name)}
+                    if all(direct & idsets[q] for q in params):
+                        both = True
+        if not both:
+            missing.append("an operation on the two id sets together")
+        if missing:
+            ctx.fail(f.module, ife, f.key, f"{p}.copy() if {norm(ife.test, 40)}",
+                     f"whether diff() works on private copies does not depend on {', '.join(missing)}: a tree that holds one node object twice (or shares a node with the other "
+                     f"input) is diffed in place, parent links of the shared node describe only one residence and the edit script pairs / moves the wrong nodes")
+        else:
+            ctx.ok(inst, {"sequence_lengths": sorted(lens), "id_sets": sorted(names & (idsets[params[0]] | idsets[params[1]]))})
+
+
+RULES = [rule_ab, rule_c, rule_d, rule_e, rule_f, rule_g, rule_h, rule_i]
 EXPLANATION = (
     "Partition typestate of the Change Distiller decided structurally: co-location of matching_set.add with both "
     "unmatched-set removals, the both-unmatched proof (membership or snapshot+pop+break), same-type dominance (also "
